@@ -103,4 +103,4 @@ def response_reads(chk, prog, rid, cfg=None):
             elif core.call_matches(t, c02.BARE_READ):
                 chk.ob(rid, fn, f"bare read {t['callee'].split('::')[-1]} in the response parser", False,
                        "a partial read would be taken for complete data", where=b.where(blk), cfg=cfg)
-    chk.floor("exact reads in the response parser", good, 6)
+    chk.floor("exact reads in the response parser", good, 3)
